@@ -8,7 +8,7 @@ use detsim::Rng;
 use serde_json::{json, Value};
 use std::collections::BTreeMap;
 use std::sync::atomic::{AtomicUsize, Ordering};
-use std::sync::Mutex;
+use std::sync::{Arc, Mutex};
 use tracing_core::dispatch::{self, Dispatch};
 use tracing_subscriber::prelude::*;
 use tracing_subscriber::Registry;
@@ -402,12 +402,10 @@ struct H {
 static HIST: Mutex<Vec<H>> = Mutex::new(Vec::new());
 static TURN: AtomicUsize = AtomicUsize::new(0);
 const NSLOTS: usize = 6;
-static SLOTS: Mutex<Vec<Option<(tracing::Span, u64)>>> = Mutex::new(Vec::new());
+/// a slot keeps its handle while another thread records through it (the recorder holds a second `Arc`)
+static SLOTS: Mutex<Vec<Option<(Arc<tracing::Span>, u64)>>> = Mutex::new(Vec::new());
 /// spans currently entered on any thread (an exit must never be the operation that closes a span: finding F13)
 static ENTERED_ANY: Mutex<Vec<u64>> = Mutex::new(Vec::new());
-/// slots whose handle is temporarily out of `SLOTS` because another thread is recording on it: the owner must
-/// not treat such a slot as free (it would create a second span there and lose one of the two handles)
-static BUSY: Mutex<Vec<bool>> = Mutex::new(Vec::new());
 
 fn thread_body(t: usize, d: Dispatch, mine: Vec<(usize, Value)>, sync: bool) {
     let _g = dispatch::set_default(&d);
@@ -425,6 +423,7 @@ fn thread_body(t: usize, d: Dispatch, mine: Vec<(usize, Value)>, sync: bool) {
         let mut h = H { gi, t, op: op.clone(), kind, uid, vals: s["vals"].clone(), applied: true, slot, ..Default::default() };
         h.scope = stack.iter().map(|x| x.0).collect();
         h.inv = detsim::stamp();
+        let rec_uid = std::cell::Cell::new(0u64);
         let r = std::panic::catch_unwind(std::panic::AssertUnwindSafe(|| match op.as_str() {
             "event" => {
                 if kind == 5 {
@@ -434,7 +433,7 @@ fn thread_body(t: usize, d: Dispatch, mine: Vec<(usize, Value)>, sync: bool) {
                 true
             }
             "span" => {
-                let free = SLOTS.lock().unwrap()[slot].is_none() && !BUSY.lock().unwrap()[slot];
+                let free = SLOTS.lock().unwrap()[slot].is_none();
                 if !free {
                     return false;
                 }
@@ -442,7 +441,7 @@ fn thread_body(t: usize, d: Dispatch, mine: Vec<(usize, Value)>, sync: bool) {
                     fault("panic_in_span_field_value");
                 }
                 let sp = jsites::span(kind, &vals_of(&s["vals"]), uid);
-                SLOTS.lock().unwrap()[slot] = Some((sp, uid));
+                SLOTS.lock().unwrap()[slot] = Some((Arc::new(sp), uid));
                 true
             }
             "enter" => {
@@ -469,10 +468,11 @@ fn thread_body(t: usize, d: Dispatch, mine: Vec<(usize, Value)>, sync: bool) {
                 None => false,
             },
             "record" => {
-                let taken = SLOTS.lock().unwrap()[slot].take();
-                match taken {
+                // any thread may record through the slot's handle, also while others record on the same span
+                let held = SLOTS.lock().unwrap()[slot].clone();
+                match held {
                     Some((sp, u)) => {
-                        BUSY.lock().unwrap()[slot] = true;
+                        rec_uid.set(u);
                         let field = s["field"].as_str().unwrap_or("later");
                         match &s["rec"] {
                             Value::String(x) => {
@@ -486,8 +486,7 @@ fn thread_body(t: usize, d: Dispatch, mine: Vec<(usize, Value)>, sync: bool) {
                             }
                             _ => {}
                         }
-                        SLOTS.lock().unwrap()[slot] = Some((sp, u));
-                        BUSY.lock().unwrap()[slot] = false;
+                        drop(sp);
                         true
                     }
                     None => false,
@@ -514,8 +513,11 @@ fn thread_body(t: usize, d: Dispatch, mine: Vec<(usize, Value)>, sync: bool) {
             Ok(a) => h.applied = a,
             Err(_) => h.panicked = true,
         }
-        if op == "span" || op == "record" || op == "enter" || op == "drop" {
+        if op == "span" || op == "enter" || op == "drop" {
             h.uid = SLOTS.lock().unwrap()[slot].as_ref().map(|x| x.1).unwrap_or(h.uid);
+        }
+        if op == "record" && rec_uid.get() != 0 {
+            h.uid = rec_uid.get();
         }
         h.field = s["field"].as_str().unwrap_or("").to_string();
         h.rec = s["rec"].clone();
@@ -544,7 +546,7 @@ impl Engine for JsonEngine {
         &["C14"]
     }
     fn rule(&self, _p: &str) -> String {
-        "JSON formatter x {flatten_event, current_span, span_list, target/level/thread/file/line options}; hostile strings (quotes, backslashes, control characters, U+2028/9, astral and non-characters, a literal \\u0041) in messages, field names, string values, targets and span names; numeric extremes (u64/i64/u128/i128 bounds, 2^53+1, NaN, +-inf, -0.0, subnormal), bools, errors, Debug/Display values; spans whose fields are recorded later in 0..n steps from one or two threads while another thread emits events inside the span; faults: a panicking Debug in an event field or in a span field (caught); non-trivial = at least one record carried a hostile string and at least one span had a field recorded after creation and was listed in a later event; distinct = distinct (plan, schedule digest)".into()
+        "JSON formatter x {flatten_event, current_span, span_list, target/level/thread/file/line options}; hostile strings (quotes, backslashes, control characters, U+2028/9, astral and non-characters, a literal \\u0041) in messages, field names, string values, targets and span names; numeric extremes (u64/i64/u128/i128 bounds, 2^53+1, NaN, +-inf, -0.0, subnormal), bools, errors, Debug/Display values; spans whose fields are recorded later in 0..n steps from up to three threads - also overlapping each other on one span - while another thread emits events inside the span (under seeded schedules each field is judged as an atomic register: an event must show a value of a record call not certainly superseded before the event began, and the creation-time state only if no record call had certainly completed); faults: a panicking Debug in an event field or in a span field (caught); non-trivial = at least one record carried a hostile string and at least one span had a field recorded after creation and was listed in a later event; distinct = distinct (plan, schedule digest)".into()
     }
     fn components(&self) -> Value {
         json!({"real": ["fmt::format::Json (format_event, SerializableSpan, SerializableContext)", "JsonFields::add_fields (merge and re-serialise)", "tracing-serde visitors", "serde_json serializer", "Registry + span extensions"], "stub": ["sink (recording writer)", "independent RFC 8259 parser as oracle"]})
@@ -570,6 +572,8 @@ impl Engine for JsonEngine {
             // most steps concentrate on one slot so that create / enter / record-later / emit-inside chains form
             let slot = if rng.chance(2, 3) { hot } else { rng.below(NSLOTS as u64) };
             let roll = rng.below(100);
+            // under seeded schedules record calls are more frequent (they are what races)
+            let roll = if sync && roll < 14 { 85 } else { roll };
             // under seeded schedules a handle is created, entered and dropped by one owner thread (another thread
             // may record on it or emit inside it); otherwise enter could race with the last drop, which is misuse
             if sync && matches!(roll, 40..=69 | 94..=99) {
@@ -614,8 +618,8 @@ impl Engine for JsonEngine {
         let nthreads = cfg["threads"].as_u64().unwrap_or(1).max(1) as usize;
         let steps: Vec<Value> = plan["steps"].as_array().cloned().unwrap_or_default();
         std::panic::set_hook(Box::new(|_| {}));
+        WALL_ENABLED.store(true, Ordering::SeqCst);
         *SLOTS.lock().unwrap() = (0..NSLOTS).map(|_| None).collect();
-        *BUSY.lock().unwrap() = vec![false; NSLOTS];
         let sync = sched.sync;
         let cfg2 = cfg.clone();
         let body = move || {
@@ -636,7 +640,7 @@ impl Engine for JsonEngine {
                 detsim::join(id);
             }
             let _g = dispatch::set_default(&d);
-            let rest: Vec<Option<(tracing::Span, u64)>> = SLOTS.lock().unwrap().drain(..).collect();
+            let rest: Vec<Option<(Arc<tracing::Span>, u64)>> = SLOTS.lock().unwrap().drain(..).collect();
             drop(rest);
         };
         let finish = move || {
@@ -694,9 +698,11 @@ fn oracle(cfg: &Value, sync: bool, hist: &[H]) {
             }
         }
     }
-    // under a seeded schedule a record call may overlap an event in either direction: for the later-recorded
-    // fields every value recorded on that span at any time (or absence) is an allowed outcome
-    let mut all_records: BTreeMap<(u64, String), Vec<Exp>> = BTreeMap::new();
+    // under a seeded schedule record calls overlap events and each other. A span field is a register: `record`
+    // is atomic (it holds the span's extensions lock), so an event must show, for every field, a value written by
+    // a record call that is not certainly superseded before the event began - or the creation-time state only if
+    // no record call on that field had certainly completed by then. (uid, field) -> [(inv, ret, value)]
+    let mut recs: BTreeMap<(u64, String), Vec<(u64, u64, Exp)>> = BTreeMap::new();
     if sync_mode {
         for h in hist.iter().filter(|h| h.op == "record" && h.applied) {
             let e = match &h.rec {
@@ -705,7 +711,7 @@ fn oracle(cfg: &Value, sync: bool, hist: &[H]) {
                 Value::Number(n) => Exp::I(n.as_i64().unwrap_or(0) as i128),
                 _ => continue,
             };
-            all_records.entry((h.uid, h.field.clone())).or_default().push(e);
+            recs.entry((h.uid, h.field.clone())).or_default().push((h.inv, h.ret, e));
         }
     }
     // 2. faithfulness, per operation
@@ -732,11 +738,8 @@ fn oracle(cfg: &Value, sync: bool, hist: &[H]) {
                         Value::Number(n) => Exp::I(n.as_i64().unwrap_or(0) as i128),
                         _ => continue,
                     };
-                    let slot = ms.fields.entry(field).or_default();
-                    if sync {
-                        slot.push(e);
-                    } else {
-                        *slot = vec![e];
+                    if !sync {
+                        *ms.fields.entry(field).or_default() = vec![e];
                     }
                     late_recorded.insert(h.uid);
                 }
@@ -820,22 +823,44 @@ fn oracle(cfg: &Value, sync: bool, hist: &[H]) {
                     if ms.broken {
                         return Ok(());
                     }
-                    for (k, es) in &ms.fields {
-                        match get(j, k) {
-                            Some(x) if es.iter().any(|e| matches_exp(x, e)) => {}
-                            Some(x) if sync_mode && all_records.get(&(uid, k.clone())).map_or(false, |es| es.iter().any(|e| matches_exp(x, e))) => {}
-                            // under a seeded schedule a record call may overlap the event: the field may still be absent
-                            None if sync_mode && (k == "later" || k == "later2") => {}
-                            other => return Err(format!("span uid {uid} field {:?}: recorded {:?} but the JSON has {:?}", k, es, other)),
+                    if sync_mode {
+                        let mut keys: std::collections::BTreeSet<String> = ms.fields.keys().cloned().collect();
+                        for ((u, k), _) in recs.iter() {
+                            if *u == uid {
+                                keys.insert(k.clone());
+                            }
                         }
-                    }
-                    if let J::Obj(fs) = j {
-                        for (k, x) in fs {
-                            if k != "name" && !ms.fields.contains_key(k) {
-                                if sync_mode && all_records.get(&(uid, k.clone())).map_or(false, |es| es.iter().any(|e| matches_exp(x, e))) {
-                                    continue;
+                        for k in &keys {
+                            let rs: &[(u64, u64, Exp)] = recs.get(&(uid, k.clone())).map(|v| v.as_slice()).unwrap_or(&[]);
+                            let creation_state_allowed = !rs.iter().any(|r| r.1 < h.inv);
+                            let cands: Vec<&Exp> = rs.iter().filter(|r| r.0 < h.ret && !rs.iter().any(|q| r.1 < q.0 && q.1 < h.inv)).map(|r| &r.2).collect();
+                            let ok = match get(j, k) {
+                                Some(x) => cands.iter().any(|e| matches_exp(x, e)) || (creation_state_allowed && ms.fields.get(k).map_or(false, |es| es.iter().any(|e| matches_exp(x, e)))),
+                                None => creation_state_allowed && !ms.fields.contains_key(k),
+                            };
+                            if !ok {
+                                return Err(format!("span uid {uid} field {:?}: the JSON has {:?}; values a completed or overlapping record call may have left: {:?}; creation-time value {:?} (still allowed: {})", k, get(j, k), cands, ms.fields.get(k), creation_state_allowed));
+                            }
+                        }
+                        if let J::Obj(fs) = j {
+                            for (k, _) in fs {
+                                if k != "name" && !keys.contains(k) {
+                                    return Err(format!("span uid {uid}: the JSON has a field {:?} that was never recorded", k));
                                 }
-                                return Err(format!("span uid {uid}: the JSON has a field {:?} that was never recorded", k));
+                            }
+                        }
+                    } else {
+                        for (k, es) in &ms.fields {
+                            match get(j, k) {
+                                Some(x) if es.iter().any(|e| matches_exp(x, e)) => {}
+                                other => return Err(format!("span uid {uid} field {:?}: recorded {:?} but the JSON has {:?}", k, es, other)),
+                            }
+                        }
+                        if let J::Obj(fs) = j {
+                            for (k, _) in fs {
+                                if k != "name" && !ms.fields.contains_key(k) {
+                                    return Err(format!("span uid {uid}: the JSON has a field {:?} that was never recorded", k));
+                                }
                             }
                         }
                     }
